@@ -5,7 +5,7 @@ use crate::audit;
 use crate::ledger;
 use crate::model::{self, IdP, Model};
 use crate::prng::Rng;
-use crate::rig::{ident, parts, IterMode, QCtx, Rig, W};
+use crate::rig::{ident, parts, Consumer, IterMode, ParCtx, ParRig, QCtx, Rig, CONSUMERS, W};
 use crate::sink;
 use serde::{Deserialize as _, Serialize as _};
 use serde_derive::{Deserialize, Serialize};
@@ -36,6 +36,8 @@ pub enum Op {
     ResSet { w: usize, r: usize, val: u64 },
     ResView { w: usize, vi: usize, write: bool, fresh: u64, uniform: u64 },
     Debug { w: usize },
+    /// kind: 0 = par_query (+ consumer), 1 = run_par_system, 2 = run_system
+    Par { w: usize, qi: usize, kind: u8, consumer: u8, pool: usize, write: bool, targets: Vec<IdP>, fresh: u64, uniform: u64, jitter: u64, stop_at: usize },
 }
 
 impl Op {
@@ -61,6 +63,9 @@ impl Op {
             Op::ResSet { .. } => "ResSet",
             Op::ResView { .. } => "ResView",
             Op::Debug { .. } => "DebugFmt",
+            Op::Par { kind: 0, .. } => "ParQuery",
+            Op::Par { kind: 1, .. } => "RunParSystem",
+            Op::Par { .. } => "RunSystem",
         }
     }
     /// The world slot the op primarily acts on.
@@ -68,7 +73,7 @@ impl Op {
         Some(match *self {
             Op::NewWorld { w, .. } | Op::DropWorld { w } | Op::Insert { w, .. } | Op::Extend { w, .. } | Op::Remove { w, .. } | Op::Clear { w } => w,
             Op::EntryAdd { w, .. } | Op::EntryRemove { w, .. } | Op::EntryMulti { w, .. } | Op::Query { w, .. } | Op::EntryQuery { w, .. } => w,
-            Op::Reserve { w, .. } | Op::Shrink { w } | Op::ResSet { w, .. } | Op::ResView { w, .. } | Op::Debug { w } => w,
+            Op::Reserve { w, .. } | Op::Shrink { w } | Op::ResSet { w, .. } | Op::ResView { w, .. } | Op::Debug { w } | Op::Par { w, .. } => w,
             Op::Clone { .. } | Op::CloneFrom { .. } | Op::Serde { .. } | Op::Eq { .. } => return None,
         })
     }
@@ -77,7 +82,7 @@ impl Op {
         match &mut o {
             Op::NewWorld { w, .. } | Op::DropWorld { w } | Op::Insert { w, .. } | Op::Extend { w, .. } | Op::Remove { w, .. } | Op::Clear { w } => *w = nw,
             Op::EntryAdd { w, .. } | Op::EntryRemove { w, .. } | Op::EntryMulti { w, .. } | Op::Query { w, .. } | Op::EntryQuery { w, .. } => *w = nw,
-            Op::Reserve { w, .. } | Op::Shrink { w } | Op::ResSet { w, .. } | Op::ResView { w, .. } | Op::Debug { w } => *w = nw,
+            Op::Reserve { w, .. } | Op::Shrink { w } | Op::ResSet { w, .. } | Op::ResView { w, .. } | Op::Debug { w } | Op::Par { w, .. } => *w = nw,
             _ => {}
         }
         o
@@ -100,7 +105,7 @@ pub struct OpOut {
     pub flag: Option<bool>,
 }
 
-pub struct Slot<G: Rig> {
+pub struct Slot<G: ParRig> {
     pub world: W<G>,
     pub model: Model,
     /// While > 0, ops applied to this world are also applied to world `mirror.0` and results
@@ -163,6 +168,10 @@ pub struct Stats {
     pub extend_rows: BTreeSet<usize>,
     pub batch_vs_free: BTreeMap<String, u64>,
     pub signatures: BTreeSet<String>,
+    pub pool_sizes: BTreeMap<String, u64>,
+    pub par_threads_max: u64,
+    pub par_items: u64,
+    pub distinct_par_queries: BTreeSet<usize>,
     pub known_hits: BTreeMap<String, u64>,
 }
 
@@ -170,33 +179,34 @@ pub struct Stats {
 pub struct Profile {
     pub name: &'static str,
     /// weights in the order of `KINDS` below
-    pub weights: [u32; 20],
+    pub weights: [u32; 21],
     pub max_entities: usize,
     pub snapshot_every: usize,
 }
 
-pub const KINDS: [&str; 20] = [
+pub const KINDS: [&str; 21] = [
     "NewWorld", "DropWorld", "Insert", "Extend", "Remove", "Clear", "EntryAdd", "EntryRemove", "EntryMulti", "Query", "EntryQuery", "Reserve", "Shrink", "Clone", "CloneFrom", "Serde",
-    "Eq", "ResSet", "ResView", "Debug",
+    "Eq", "ResSet", "ResView", "Debug", "Par",
 ];
 
 pub fn profile(name: &str) -> Profile {
     //                 NW DW Ins Ext Rem Clr EAd ERm EMu Qry EQy Rsv Shr Cln ClF Ser Eq RSt RVw Dbg
-    let general = [2, 1, 30, 14, 22, 1, 14, 9, 4, 12, 6, 3, 3, 2, 2, 3, 2, 2, 2, 1];
+    let general = [2, 1, 30, 14, 22, 1, 14, 9, 4, 12, 6, 3, 3, 2, 2, 3, 2, 2, 2, 1, 0];
     match name {
-        "aba" => Profile { name: "aba", weights: [1, 1, 30, 22, 40, 3, 6, 4, 1, 4, 2, 1, 2, 2, 2, 4, 1, 0, 0, 0], max_entities: 10, snapshot_every: 1 },
-        "query" => Profile { name: "query", weights: [1, 1, 20, 10, 10, 1, 10, 8, 2, 50, 20, 1, 2, 1, 1, 1, 0, 1, 2, 0], max_entities: 40, snapshot_every: 1 },
-        "churn" => Profile { name: "churn", weights: [3, 3, 20, 10, 14, 3, 24, 20, 8, 6, 3, 2, 3, 4, 8, 5, 1, 3, 2, 1], max_entities: 30, snapshot_every: 1 },
-        "mem" => Profile { name: "mem", weights: [2, 2, 20, 22, 18, 3, 12, 10, 4, 14, 6, 10, 10, 3, 4, 3, 1, 1, 2, 1], max_entities: 120, snapshot_every: 4 },
-        "serde" => Profile { name: "serde", weights: [2, 1, 22, 16, 22, 2, 10, 8, 2, 5, 2, 1, 3, 2, 2, 24, 3, 3, 1, 0], max_entities: 24, snapshot_every: 1 },
-        "clone" => Profile { name: "clone", weights: [3, 2, 22, 12, 16, 2, 10, 8, 2, 5, 2, 2, 4, 14, 18, 3, 4, 3, 1, 0], max_entities: 24, snapshot_every: 1 },
-        "res" => Profile { name: "res", weights: [3, 2, 14, 8, 10, 1, 8, 6, 2, 14, 3, 1, 2, 5, 5, 6, 3, 22, 22, 1], max_entities: 16, snapshot_every: 1 },
-        "eq" => Profile { name: "eq", weights: [4, 2, 20, 10, 14, 1, 10, 8, 2, 8, 2, 1, 4, 10, 8, 6, 40, 6, 2, 0], max_entities: 12, snapshot_every: 1 },
+        "aba" => Profile { name: "aba", weights: [1, 1, 30, 22, 40, 3, 6, 4, 1, 4, 2, 1, 2, 2, 2, 4, 1, 0, 0, 0, 0], max_entities: 10, snapshot_every: 1 },
+        "query" => Profile { name: "query", weights: [1, 1, 20, 10, 10, 1, 10, 8, 2, 50, 20, 1, 2, 1, 1, 1, 0, 1, 2, 0, 0], max_entities: 40, snapshot_every: 1 },
+        "churn" => Profile { name: "churn", weights: [3, 3, 20, 10, 14, 3, 24, 20, 8, 6, 3, 2, 3, 4, 8, 5, 1, 3, 2, 1, 0], max_entities: 30, snapshot_every: 1 },
+        "mem" => Profile { name: "mem", weights: [2, 2, 20, 22, 18, 3, 12, 10, 4, 14, 6, 10, 10, 3, 4, 3, 1, 1, 2, 1, 0], max_entities: 120, snapshot_every: 4 },
+        "serde" => Profile { name: "serde", weights: [2, 1, 22, 16, 22, 2, 10, 8, 2, 5, 2, 1, 3, 2, 2, 24, 3, 3, 1, 0, 0], max_entities: 24, snapshot_every: 1 },
+        "clone" => Profile { name: "clone", weights: [3, 2, 22, 12, 16, 2, 10, 8, 2, 5, 2, 2, 4, 14, 18, 3, 4, 3, 1, 0, 0], max_entities: 24, snapshot_every: 1 },
+        "res" => Profile { name: "res", weights: [3, 2, 14, 8, 10, 1, 8, 6, 2, 14, 3, 1, 2, 5, 5, 6, 3, 22, 22, 1, 0], max_entities: 16, snapshot_every: 1 },
+        "eq" => Profile { name: "eq", weights: [4, 2, 20, 10, 14, 1, 10, 8, 2, 8, 2, 1, 4, 10, 8, 6, 40, 6, 2, 0, 0], max_entities: 12, snapshot_every: 1 },
+        "par" => Profile { name: "par", weights: [1, 1, 16, 10, 8, 1, 8, 6, 2, 6, 2, 1, 2, 1, 1, 1, 0, 1, 1, 0, 60], max_entities: 60, snapshot_every: 1 },
         _ => Profile { name: "general", weights: general, max_entities: 48, snapshot_every: 1 },
     }
 }
 
-pub struct Hist<G: Rig> {
+pub struct Hist<G: ParRig> {
     pub slots: Vec<Option<Slot<G>>>,
     pub rng: Rng,
     pub profile: Profile,
@@ -210,6 +220,9 @@ pub struct Hist<G: Rig> {
     ledger_disc: Vec<i64>,
     ledger_base: Vec<i64>,
     pub heavy_checks: bool,
+    /// A rayon pool was used: worker threads keep caches, so the end-of-history allocation balance
+    /// is not checked for this history.
+    pub used_pool: bool,
     /// Run the whole-world oracles (audit, snapshot, id probes) only every n-th op (Miri tier).
     pub check_every: u64,
     /// Signature parts of this history.
@@ -222,7 +235,7 @@ pub struct Hist<G: Rig> {
 
 pub const MAX_VIOLS: usize = 40;
 
-impl<G: Rig> Hist<G> {
+impl<G: ParRig> Hist<G> {
     pub fn new(seed: u64, profile: Profile) -> Self {
         let mut slots = Vec::new();
         for _ in 0..POOL {
@@ -240,6 +253,7 @@ impl<G: Rig> Hist<G> {
             ledger_disc: vec![0; G::N + G::NRES],
             ledger_base: G::TAGS.iter().chain(G::RES_TAGS.iter()).map(|t| ledger::type_live(*t)).collect(),
             heavy_checks: true,
+            used_pool: false,
             check_every: 1,
             sig_arch: 0,
             sig_free: 0,
@@ -508,6 +522,24 @@ impl<G: Rig> Hist<G> {
                     return Op::ResView { w, vi, write, fresh, uniform };
                 }
                 "Debug" => return Op::Debug { w },
+                "Par" => {
+                    if G::NPAR > 0 {
+                        let qi = self.rng.below(G::NPAR);
+                        let kind = *self.rng.pick(&[0u8, 0, 0, 1, 1, 2]);
+                        let consumer = self.rng.below(CONSUMERS.len()) as u8;
+                        let pool = self.rng.below(crate::par::POOL_SIZES.len());
+                        // an early-stopping consumer leaves it open which entities were written
+                        let write = self.rng.chance(3, 4) && !(kind == 0 && CONSUMERS[consumer as usize] == Consumer::FindAny);
+                        let nt = self.rng.below(4);
+                        let targets: Vec<IdP> = (0..nt).map(|_| self.pick_any_id(w)).collect();
+                        let fresh = self.next_val + 1;
+                        self.next_val += 1 + ((nents as u64 + 8) * (G::N as u64 + 2) * 4);
+                        let uniform = self.val();
+                        let jitter = *self.rng.pick(&[0u64, 0, 1, 3, 7]);
+                        let stop_at = 1 + self.rng.below(nents + 1);
+                        return Op::Par { w, qi, kind, consumer, pool, write, targets, fresh, uniform, jitter, stop_at };
+                    }
+                }
                 _ => {}
             }
         }
@@ -1163,6 +1195,59 @@ impl<G: Rig> Hist<G> {
                     self.viol("C15", "resource_mismatch", e, op);
                 }
             }
+            Op::Par { w, qi, kind, consumer, pool, write, targets, fresh, uniform, jitter, stop_at } => {
+                self.used_pool = true;
+                let consumer = CONSUMERS[*consumer as usize];
+                let pcx = ParCtx::new(*write, *fresh, *uniform, *jitter, *stop_at);
+                let half = {
+                    let m = &self.slots[*w].as_ref().unwrap().model;
+                    ((m.len() as u64 + 8) * (G::N as u64 + 2) * 2).max(1)
+                };
+                let mut qcx = QCtx::new(if *kind == 2 { IterMode::Fold } else { IterMode::Skip }, *write, *fresh + half, *uniform);
+                qcx.entry_targets = targets.iter().map(|p| ident(*p)).collect();
+                let s = self.slots[*w].as_mut().unwrap();
+                let world = &mut s.world;
+                let mut counted = 0usize;
+                crate::par::pool(*pool).install(|| match kind {
+                    0 => counted = G::run_par_query(world, *qi, &pcx, &mut qcx, consumer),
+                    1 => G::run_par_system(world, *qi, &pcx, &mut qcx),
+                    _ => G::run_system(world, *qi, &mut qcx),
+                });
+                let d = &G::QUERIES[*qi];
+                if *kind != 2 {
+                    qcx.items = pcx.take_items();
+                    qcx.mode = IterMode::Fold;
+                    if *kind == 0 {
+                        match consumer {
+                            Consumer::Count => {
+                                qcx.mode = IterMode::Skip;
+                                qcx.counted = Some(counted);
+                            }
+                            Consumer::FindAny => qcx.subset = true,
+                            _ => {}
+                        }
+                    }
+                }
+                self.stats.queries += 1;
+                *self.stats.iter_modes.entry(format!("{}:{:?}", op.kind(), consumer)).or_insert(0) += 1;
+                *self.stats.pool_sizes.entry(crate::par::POOL_SIZES[*pool].to_string()).or_insert(0) += 1;
+                self.stats.par_threads_max = self.stats.par_threads_max.max(pcx.threads_seen() as u64);
+                self.stats.par_items += qcx.items.len() as u64;
+                self.stats.distinct_par_queries.insert(*qi);
+                match model::check_query::<G>(&mut s.model, d, &qcx, targets) {
+                    Ok(st) => {
+                        self.stats.query_items += st.items as u64;
+                        self.stats.query_writes += st.writes as u64;
+                        self.stats.entry_subs_some += st.subs_some as u64;
+                        self.stats.entry_subs_none += st.subs_none as u64;
+                    }
+                    Err(e) => {
+                        let (prop, sig) = classify_query_err(&e);
+                        let prop = if prop == "C03" && *kind != 2 { "C09" } else { prop };
+                        self.viol(prop, sig, format!("{} {} consumer={:?} pool={} [{:?}]: {}", op.kind(), d.name, consumer, crate::par::POOL_SIZES[*pool], d, e), op);
+                    }
+                }
+            }
             Op::Debug { w } => {
                 let s = self.slots[*w].as_ref().unwrap();
                 let txt = format!("{:?}", s.world);
@@ -1263,6 +1348,7 @@ fn prop_for_op(op: &Op) -> &'static str {
         Op::Serde { .. } => "C06",
         Op::Clone { .. } | Op::CloneFrom { .. } => "C10",
         Op::Query { .. } | Op::EntryQuery { .. } => "C03",
+        Op::Par { .. } => "C09",
         Op::Eq { .. } => "C16",
         Op::ResSet { .. } | Op::ResView { .. } => "C15",
         _ => "C01",
@@ -1339,7 +1425,7 @@ pub fn norm_dump(d: &brood::verif::Dump) -> (Vec<(u64, bool)>, BTreeMap<Vec<u8>,
 }
 
 /// Serialize + deserialize through one of the carriers. Returns the copy and the encoded size.
-pub fn roundtrip<G: Rig>(world: &W<G>, carrier: u8) -> Result<(W<G>, usize), String> {
+pub fn roundtrip<G: ParRig>(world: &W<G>, carrier: u8) -> Result<(W<G>, usize), String> {
     match carrier {
         0 => {
             let text = serde_json::to_string(world).map_err(|e| format!("serialization failed: {e}"))?;
@@ -1388,7 +1474,7 @@ pub struct RunReport {
 /// is dropped before the closing measurement, its outputs having been copied out under
 /// `untracked`, so live bytes / blocks must be back at the opening values: "all memory obtained
 /// for a world is returned when the world is dropped" (C05).
-fn scoped<G: Rig>(seed: u64, profile: &Profile, body: impl FnOnce(&mut Hist<G>)) -> (Vec<Viol>, Vec<Op>, Stats) {
+fn scoped<G: ParRig>(seed: u64, profile: &Profile, body: impl FnOnce(&mut Hist<G>)) -> (Vec<Viol>, Vec<Op>, Stats) {
     use crate::alloc::{tracked, untracked};
     tracked(|| {
         let base_bytes = crate::alloc::live_bytes();
@@ -1396,12 +1482,13 @@ fn scoped<G: Rig>(seed: u64, profile: &Profile, body: impl FnOnce(&mut Hist<G>))
         let mut h = Hist::<G>::new(seed, profile.clone());
         body(&mut h);
         h.finish();
+        let used_pool = h.used_pool;
         let Hist { viols, oplog, stats: hstats, slots, rng, profile: p2, ledger_disc, ledger_base, sig_kinds, .. } = h;
         drop((slots, rng, p2, ledger_disc, ledger_base, sig_kinds));
         let mut copy = untracked(|| (viols.clone(), oplog.clone(), hstats.clone()));
         drop((viols, oplog, hstats));
         let (end_bytes, end_blocks) = (crate::alloc::live_bytes(), crate::alloc::live_blocks());
-        if crate::alloc::enabled() {
+        if crate::alloc::enabled() && !used_pool {
             untracked(|| {
                 copy.2.alloc_scope_checks += 1;
                 if end_bytes != base_bytes || end_blocks != base_blocks {
@@ -1429,7 +1516,7 @@ fn scoped<G: Rig>(seed: u64, profile: &Profile, body: impl FnOnce(&mut Hist<G>))
 }
 
 /// Run one history of `nops` generated ops. Returns (violations, oplog).
-pub fn run_history<G: Rig>(seed: u64, profile: &Profile, nops: usize, check_every: u64, stats: &mut Stats) -> (Vec<Viol>, Vec<Op>) {
+pub fn run_history<G: ParRig>(seed: u64, profile: &Profile, nops: usize, check_every: u64, stats: &mut Stats) -> (Vec<Viol>, Vec<Op>) {
     let (viols, oplog, hstats) = scoped::<G>(seed, profile, |h| {
         h.check_every = check_every.max(1);
         for _ in 0..nops {
@@ -1444,7 +1531,7 @@ pub fn run_history<G: Rig>(seed: u64, profile: &Profile, nops: usize, check_ever
 }
 
 /// Re-execute a concrete op list.
-pub fn run_ops<G: Rig>(ops: &[Op], profile: &Profile) -> Vec<Viol> {
+pub fn run_ops<G: ParRig>(ops: &[Op], profile: &Profile) -> Vec<Viol> {
     let (viols, _, _) = scoped::<G>(0, profile, |h| {
         for op in ops {
             if !op_applicable(h, op) {
@@ -1459,7 +1546,7 @@ pub fn run_ops<G: Rig>(ops: &[Op], profile: &Profile) -> Vec<Viol> {
 }
 
 /// An op from a (shrunk) list is skipped when the world slots it needs do not exist.
-fn op_applicable<G: Rig>(h: &Hist<G>, op: &Op) -> bool {
+fn op_applicable<G: ParRig>(h: &Hist<G>, op: &Op) -> bool {
     let has = |i: usize| i < POOL && h.slots[i].is_some();
     match *op {
         Op::NewWorld { w, .. } => w < POOL,
@@ -1478,14 +1565,15 @@ pub fn merge_stats(a: &mut Stats, b: &Stats) {
     add!(ops, snapshots, snapshot_rows, id_probes, stale_probes, stale_removes, never_issued_probes, slot_reuses, ids_issued, shape_changes, overwrites, audits,
         empty_archetype_audits, dup_foreign_key_notes, queries, query_items, query_writes, query_hints, query_unresolved, entry_subs_some, entry_subs_none, entry_missing,
         serde_bytes, mirrored_ops, clones, clone_froms, eq_checks, eq_true, eq_false, res_reads, res_writes, ledger_checks, world_drops, alloc_scope_checks, histories);
-    maxf!(max_generation, max_archetypes, max_free, values_born, values_died);
-    mapadd!(by_kind, iter_modes, serde_roundtrips, batch_vs_free, known_hits);
-    setadd!(distinct_queries, shapes_inserted, extend_rows, signatures);
+    maxf!(max_generation, max_archetypes, max_free, values_born, values_died, par_threads_max);
+    add!(par_items);
+    mapadd!(by_kind, iter_modes, serde_roundtrips, batch_vs_free, known_hits, pool_sizes);
+    setadd!(distinct_queries, shapes_inserted, extend_rows, signatures, distinct_par_queries);
 }
 
 /// Bounded delta debugging over the op list: keep removing chunks while the same
 /// (property, signature) is still reported.
-pub fn shrink<G: Rig>(ops: &[Op], profile: &Profile, prop: &str, sig: &str, budget: usize) -> Vec<Op> {
+pub fn shrink<G: ParRig>(ops: &[Op], profile: &Profile, prop: &str, sig: &str, budget: usize) -> Vec<Op> {
     let fails = |cand: &[Op]| -> bool {
         let v = match catch_unwind(AssertUnwindSafe(|| run_ops::<G>(cand, profile))) {
             Ok(v) => v,
